@@ -253,7 +253,9 @@ def m_stat(I_, a, k, follow=True):
     st.attrs['st_mode'] = ModeV(StatV(fs.sigma, p, follow))
     st.attrs['st_uid'] = Sym(I_.ctx.fresh_int('st_uid'), 'int')
     st.attrs['st_gid'] = Sym(I_.ctx.fresh_int('st_gid'), 'int')
-    st.attrs['st_size'] = Sym(I_.ctx.fresh_int('st_size'), 'int')
+    size = I_.ctx.fresh_int('st_size')
+    I_.ctx.assume(size >= 0)
+    st.attrs['st_size'] = Sym(size, 'int')
     return st
 
 
